@@ -119,18 +119,19 @@ type World struct {
 }
 
 type WorldCfg struct {
-	PolicyFile     bool
-	AcceptAll      bool
-	Allowlist      []string
-	MinSwapMsat    uint64
-	BtcEnabled     bool
-	LbtcEnabled    bool
-	BtcHeight      uint32
-	LbtcHeight     uint32
-	WalletSat      uint64
-	OpeningFee     uint64
-	SpendableMsat  uint64
-	ReceivableMsat uint64
+	PolicyFile      bool
+	AcceptAll       bool
+	Allowlist       []string
+	MinSwapMsat     uint64
+	BtcEnabled      bool
+	LbtcEnabled     bool
+	BtcHeight       uint32
+	LbtcHeight      uint32
+	WalletSat       uint64
+	OpeningFee      uint64
+	SpendableMsat   uint64
+	ReceivableMsat  uint64
+	IdempotentRepay bool
 }
 
 func defaultCfg() WorldCfg {
@@ -150,7 +151,7 @@ func newWorld(cfg WorldCfg) *World {
 		w.pol.allow[p] = true
 	}
 	w.ln = &simLN{w: w, invoices: map[string]*simInvoice{}, payments: map[string]payStatus{}, outcome: map[string]string{},
-		spendable: cfg.SpendableMsat, receivable: cfg.ReceivableMsat, notifiers: map[string]bool{}}
+		spendable: cfg.SpendableMsat, receivable: cfg.ReceivableMsat, notifiers: map[string]bool{}, idempotent: cfg.IdempotentRepay, resolve: map[string]string{}}
 	w.btc = newSimChain(w, "btc", cfg.BtcHeight, cfg.WalletSat, cfg.OpeningFee)
 	w.lbtc = newSimChain(w, "lbtc", cfg.LbtcHeight, cfg.WalletSat, cfg.OpeningFee)
 	w.msgr = &simMessenger{w: w}
@@ -351,7 +352,20 @@ func recFlags(s *swap.SwapStateMachine) map[string]string {
 		"coop":     b(d.CoopClose != nil),
 		"feepre":   b(d.FeePreimage != ""),
 		"nextmsg":  fmt.Sprint(d.NextMessageType),
+		"lasterr":  errClassOf(d.LastErrString),
 	}
+}
+
+// errClassOf normalises an error text to a short class (letters of its first words).
+func errClassOf(m string) string {
+	if m == "" {
+		return "-"
+	}
+	f := strings.FieldsFunc(m, func(r rune) bool { return !(r >= 'a' && r <= 'z' || r >= 'A' && r <= 'Z') })
+	if len(f) > 5 {
+		f = f[:5]
+	}
+	return strings.ToLower(strings.Join(f, "-"))
 }
 
 func (l *logStore) UpdateData(s *swap.SwapStateMachine) error {
@@ -583,6 +597,10 @@ type simLN struct {
 	payCb       func(swapId string, invoiceType swap.InvoiceType)
 	nInv        int
 	payAttempts int
+	idempotent  bool              // back-end returns the existing payment instead of refusing a second one
+	resolve     map[string]string // how an in-flight HTLC resolves when the idempotent back-end waits for it
+	advChain    string            // after every failed claim payment attempt this chain grows by advBlocks
+	advBlocks   uint32
 }
 
 // foreignInvoice registers an invoice the PEER created (so that DecodePayreq and payments work).
@@ -656,6 +674,22 @@ func (l *simLN) pay(kind, payreq, channel string, maxCltv uint32) (string, error
 	var pre string
 	var err error
 	switch {
+	case st == paySucceeded && l.idempotent:
+		// a sendpay/waitsendpay-like back-end returns the result of the existing payment
+		pre = inv.preimage
+		out = "existing-succeeded"
+	case st == payPending && l.idempotent:
+		// ... and waits for the HTLC that is in flight: it resolves as scripted by `settle`
+		switch l.resolve[inv.hash] {
+		case "fail":
+			l.payments[inv.hash] = payFailed
+			err = errors.New("sim: payment failed")
+			out = "existing-failed"
+		default:
+			l.payments[inv.hash] = paySucceeded
+			pre = inv.preimage
+			out = "existing-succeeded"
+		}
 	case st == paySucceeded || st == payPending:
 		// an LND-like back-end refuses to pay a hash twice
 		err = errors.New("sim: payment already exists (" + st.String() + ")")
@@ -674,6 +708,13 @@ func (l *simLN) pay(kind, payreq, channel string, maxCltv uint32) (string, error
 	}
 	l.w.note(Obs{Kind: "pay", Swap: l.w.name(inv.swapId), A: map[string]string{"kind": kind, "hash": inv.hash[:8], "msat": fmt.Sprint(inv.msat),
 		"chan": channel, "btc": fmt.Sprint(height), "lbtc": fmt.Sprint(lheight), "max": fmt.Sprint(maxCltv), "out": out, "cltv": fmt.Sprint(inv.cltv)}})
+	if kind == "claim" && err != nil && l.advBlocks != 0 {
+		if l.advChain == "lbtc" {
+			l.w.lbtc.height += l.advBlocks
+		} else {
+			l.w.btc.height += l.advBlocks
+		}
+	}
 	if rep && err == nil {
 		return "", errDead
 	}
@@ -730,7 +771,20 @@ func (l *simLN) SpendableMsat(scid string) (uint64, error) {
 	if f := l.w.fault("spendable"); f != "" {
 		return 0, errors.New("sim spendable: " + f)
 	}
-	return l.spendable, nil
+	// HTLCs of the node's own payments that are in flight or settled no longer count as spendable
+	out := uint64(0)
+	for _, inv := range l.invoices {
+		if inv.ours {
+			continue
+		}
+		if st := l.payments[inv.hash]; st == payPending || st == paySucceeded {
+			out += inv.msat
+		}
+	}
+	if out > l.spendable {
+		return 0, nil
+	}
+	return l.spendable - out, nil
 }
 func (l *simLN) ReceivableMsat(scid string) (uint64, error) {
 	if l.w.dead {
